@@ -776,6 +776,20 @@ Theorem C15_exact_fill_succeeds_channel : forall o L md5, (forall l, length (md5
   exists f, channel_run (encB o L rate bps) md5 p w chunks = Ok f.
 Proof. exact channel_run_succeeds. Qed.
 
+(* C08 "never Panic" for the byte and channel front-ends, by equality of runs with the sample writer (debug build: only the
+   overflow trap of a 2^64 counter can stop a run; the block encoder is assumed not to panic) *)
+Theorem C08_no_panic_byte_debug : forall enc_block md5 en o rate bps ch total w (chunks : list (list N)),
+  (forall l, length (md5 l) = 16%nat) -> (forall n b, is_panic (enc_block n b) = false) ->
+  options_wf o -> byte_new Debug en [] o rate bps ch total = Ok w -> Forall byte_ok (concat chunks) ->
+  match byte_run enc_block md5 Debug w chunks with Panic k => k = POverflow | _ => True end.
+Proof. exact byte_run_safe_debug. Qed.
+
+Theorem C08_no_panic_channel_debug : forall enc_block md5 o rate bps ch total w (chunks : list (list (list Z))),
+  (forall l, length (md5 l) = 16%nat) -> (forall n b, is_panic (enc_block n b) = false) ->
+  options_wf o -> channel_new Debug [] o rate bps ch total = Ok w -> Forall (chunk_ok (N.to_nat ch)) chunks ->
+  match channel_run enc_block md5 Debug w chunks with Panic k => k = POverflow | _ => True end.
+Proof. exact channel_run_safe_debug. Qed.
+
 Print Assumptions C07_decoded_file_is_read_bytes_channels.
 Print Assumptions C03_valid_file_is_read.
 Print Assumptions C07_decoded_file_is_read.
@@ -841,3 +855,5 @@ Proof. vm_compute. repeat split; reflexivity. Qed.
 Print Assumptions C15_exact_fill_succeeds_sample.
 Print Assumptions C15_exact_fill_succeeds_byte.
 Print Assumptions C15_exact_fill_succeeds_channel.
+Print Assumptions C08_no_panic_byte_debug.
+Print Assumptions C08_no_panic_channel_debug.
